@@ -4,6 +4,10 @@ import json, os
 HERE = os.path.dirname(os.path.abspath(__file__))
 props = [json.loads(l) for l in open(os.path.join(HERE, 'properties.jsonl'))]
 CLAIMED = {
+ 'C02': dict(level='model_checking', design='DESIGN.md §4 C02, §10',
+   text='TLC checks on tla/Defaults.tla (DefaultsMC) that the transcribed type table / canonicalisation / c:type reconstruction / transfer, nullability and callback-role defaults imply the stated defaults for every spelling (base word x pointer depth 0-3 x const/volatile per level) in parameter, return, field and constant position and for every arrangement of <=5 parameters drawn from {callback, user_data, other gpointer, destroy notify, async-ready callback, int, GError**} x {function, method, callback typedef}; TLC exports those cases, the harness renders them (quick: seeded stratified sample, thorough: all, plus seeded random longer parameter lists) into un-annotated declarations, the real Transformer/MainTransformer/IntrospectablePass/GIRWriter scan them and TLC (DefaultsTrace.tla) judges the projected GIR clause by clause (TypeName, CTypeKept, StrvArray, Container, InNone, OutFull, RetBasicNone, RetConstNone, RetStringFull, PtrNullable, Throws, Closure, Destroy, NotifiedScope, AsyncScope, UserDataNullable).',
+   note='trusted: symgen conventions of harness/scan.py (the yacc C parser cannot be built here), synthetic GLib/GObject/Gio dependency GIRs, c:type compared as (base words, depth, qualifier set per level); out/inout defaults are reached through one bare direction annotation',
+   technique='TLA+ model checking (TLC) of the transcribed default rules + TLC-judged replay of the enumerated declarations through the real scanner'),
  'C18': dict(level='model_checking', design='DESIGN.md §4 C18',
    text='TLC explores every interleaving of the file-system primitives of 2-3 scanner processes (load/parse/store/purge), crash points, source edits, rename vs cross-device copy and fine vs coarse clocks on tla/Cache.tla and checks NoStale (modulo the recorded root causes), NoTorn, NoCrossVersion, PurgeEffective; the same actions are bound to the real CacheStore/Transformer._parse_include by executing TLC counterexamples, TLC-simulated behaviours and random schedules under a deterministic scheduler and validating every recorded trace with TLC (CacheTrace.tla: implementation layer + property layer in every state; CacheProp.tla: API level).',
    note='trusted: step-wise re-implementation of shutil.move in the harness, fake GIRParser (cache payload is opaque), one entry, atomic stamp-file replacement; bounds: <=3 processes, <=2 edits exhaustively, more by simulation',
